@@ -69,6 +69,10 @@ let oracle_c14 (line : string) : string =
       (* a window closing ITSELF: the rest in the unmutated order; closing another window: the
          rest as a multiset (the tree the remaining routing sees is a different one) *)
       let self_only = List.for_all (fun (id, (_, _, tgt)) -> id = tgt) cs.mus in
+      (* a closed window that claims events: in the unmutated order it would have ended the offers, so
+         what the windows after it get cannot be read off that order (the model correspondence covers it) *)
+      let closed_claims = List.exists (fun w -> iz (claims w) <> 0) closed in
+      if closed_claims then () else
       if not (if self_only then c14_rest_checkb closed expected observed
               else c14_rest_set_checkb closed expected observed) then
         bad := Some (Printf.sprintf "record %d: delivery to the windows that were not closed is derailed: %s vs %s" k (pr_ievs observed) (pr_ievs expected))
@@ -78,6 +82,10 @@ let oracle_c14 (line : string) : string =
         if r.kind = "K" then begin
           let t = parse_tree (field r "T") in
           compare_logs k t (key_spec claims t) (parse_ievs (field r "L"))
+        end else if r.kind = "SH" then begin
+          (* the focus chain keys are routed along: show re-links only a parent without a focused child *)
+          if not (c15_show_checkb (zi (int_of_string (field r "W"))) (parse_tree (field r "U")) (parse_tree (field r "T"))) then
+            bad := Some (Printf.sprintf "record %d: show changed the focus chain: the shown window is offered keys before the window that took the focus meanwhile (or is left off the chain)" k)
         end else if r.kind = "MS" then begin
           let t = parse_tree (field r "T") in
           match !raws with
